@@ -183,7 +183,7 @@ _MRG = H('h_merger.c', 'asan', exclude=['mtbl/iter.c', 'mtbl/block.c', 'mtbl/rea
 CHECKS['C04'] = dict(
     level=MC, engine='seqx',
     technique='exhaustive enumeration of source families (every subset of a 4-key universe per source, up to 3-4 sources, reader/multi-block/invalidating user sources) drained through the real merger with a fold-tree merge function whose result reveals exactly which source values were combined',
-    text='Every family of k<=3 (thorough 4) sources, each any subset of {empty key, a, b, c}, with every combination of {merge function, none} x {dupsort, none} and four source kinds, is drained through the real merger. The merge callback returns "(v0+v1)" over unique value tags, so parsing a result yields the exact multiset of values folded - each used once - without prescribing a fold order. A callback failing for one key at its n-th invocation must make exactly the next() that would produce that key fail. User sources free their previous buffers on every call so that any stale use is an AddressSanitizer report. The same content is also observed through mtbl_source_write() into a writer and through the real mtbl_merge binary with a merge DSO (output decoded independently).',
+    text='Every family of k<=3 (thorough 4) sources, each any subset of {empty key, a, b, c}, with every combination of {merge function (fold tree, or a shrinking sum whose result is shorter than its operands), none} x {dupsort, none} and six source kinds (reader, multi-block reader, invalidating user source, user source holding every key twice in dupsort order, two mixes), is drained through the real merger. The merge callback returns "(v0+v1)" over unique value tags, so parsing a result yields the exact multiset of values folded - each used once - without prescribing a fold order. A callback failing for one key at its n-th invocation must make exactly the next() that would produce that key fail. User sources free their previous buffers on every call so that any stale use is an AddressSanitizer report. The same content is also observed through mtbl_source_write() into a writer and through the real mtbl_merge binary with a merge DSO (output decoded independently).',
     jobs=[
         dict(name='drain', spec=_MRG, args=['drain']),
         dict(name='failing-callback', spec=_MRG, args=['fail']),
@@ -194,7 +194,7 @@ CHECKS['C04'] = dict(
     rule='one case = (source family, source kinds, merge on/off, dupsort on/off[, failing key, nth]); signature = (options, k, number of sources holding each key, kinds)',
     bounds={'quick': 'k<=3 sources x 16 subsets each x 4 source-kind assignments x 4 option combinations; failing callback: every key with >=2 holders x every invocation index',
             'thorough': 'k<=4 sources'},
-    nonzero=['states', 'drains_with_merging', 'drains_with_empty_key', 'failing_callback_runs', 'source_write_runs', 'tool_runs'],
+    nonzero=['states', 'drains_with_merging', 'drains_with_empty_key', 'drains_with_duplicate_keys_in_one_source', 'failing_callback_runs', 'source_write_runs', 'tool_runs'],
     assumptions=['order among equal keys without dupsort is unspecified and not checked', 'after a failed merge nothing further is checked (the statement fixes only that call)'],
     budget={'quick': 300, 'thorough': 1800},
 )
@@ -349,7 +349,7 @@ _FS = H('h_fileset.c', 'asan', exclude=['mtbl/fileset.c', 'libmy/my_fileset.c', 
 CHECKS['C07'] = dict(
     level=MC, engine='bfs',
     technique='explicit-state breadth-first search over histories of the real fileset (two handles sharing one fileset, real setfile and table files on tmpfs, harness-owned monotonic clock): states deduplicated by a canonical hash of the private fileset fields plus the reference state; oracle = interval of setfile versions the view may legitimately reflect; AddressSanitizer over every history',
-    text='Alphabet: rewrite the setfile to one of five versions (one with a missing and a non-table file, one with an absolute path), advance the clock by 1 s or interval+1 s, and for handles A and B=dup(A, filename/reader filter): reload, reload_now, open an iterator, step it, close it, observe (open+drain+close), plus destroy(A). Configurations: reload intervals {2, 0, NEVER} per handle, merge function on/off, cold and warm start. After every open the content (decoded to the set of files it merges) must equal the filtered merge of SOME setfile version between the one current at the latest mandatory reload point (initial load, reload_now, deferred reload_now, interval expired since the last moment a reload could have happened) and the one current at the last moment a reload could have happened at all; never older, and fixed while any iterator is open. Kept iterators must return their original snapshot step by step whatever happens in between.',
+    text='Alphabet: rewrite the setfile to one of five versions (one with a missing and a non-table file, one with an absolute path), advance the clock by 1 s or interval+1 s (each also in a variant whose nanosecond part restarts below every earlier reading), and for handles A and B=dup(A, filename/reader filter): reload, reload_now, open an iterator, step it, close it, observe (open+drain+close), plus destroy(A). Configurations: reload intervals {2, 0, NEVER} per handle, merge function on/off, cold and warm start. After every open the content (decoded to the set of files it merges) must equal the filtered merge of SOME setfile version between the one current at the latest mandatory reload point (initial load, reload_now, deferred reload_now, interval expired since the last moment a reload could have happened) and the one current at the last moment a reload could have happened at all; never older, and fixed while any iterator is open. Kept iterators must return their original snapshot step by step whatever happens in between.',
     jobs=[dict(name='fileset-bfs', spec=_FS, args=lambda tier: ['7' if tier == 'thorough' else '5'])],
     states_key='states', transitions_key='transitions', traces_key='executions',
     rule='a state = canonical hash of (shared fileset counters and stamps, my_fileset entries, per-handle stamp equality and merger sources, open iterators, reference interval, capped clock ages); signature = (configuration, first operation)',
